@@ -120,13 +120,17 @@ class SimSocket(object):
         self._timeout = None
         self._closed = False
         k.created += 1
+        self._serial = k.created        # deterministic identity (sets of sockets must iterate in a reproducible order)
 
     # ---- plumbing
     def __repr__(self):
         return "<SimSocket fd=%s %s>" % (self._fd if not self._closed else -1, self._of.name)
 
     def __hash__(self):
-        return id(self) >> 4
+        return self._serial
+
+    def __eq__(self, other):
+        return self is other
 
     def __enter__(self):
         return self
